@@ -143,7 +143,7 @@ def main():
     # ---- T3: timeline across configurations on real modules; PCM encoding relations on real renders
     if not replay:
         data = os.path.join(V.REPO, "test-dev", "data")
-        mods = ["ode2ptk.mod", "m/xyce-dans_la_rue.xm", "storlek_05.it", "m/adlib.s3m", "m/panic.s3m", "m/reborning.med", "m/aladdin - aladdin.far",
+        mods = ["ode2ptk.mod", "longest.med", "m/xyce-dans_la_rue.xm", "storlek_05.it", "m/adlib.s3m", "m/panic.s3m", "m/reborning.med", "m/aladdin - aladdin.far",
                 "storlek_11.it", "pattern_loop_it.it", "m/Jazz Jackrabbit 2 - Carrotus.j2b" ]
         mods = [m for m in mods if os.path.exists(os.path.join(data, m))]
         extra = sorted(x for x in os.listdir(os.path.join(data, "m")) if not x.endswith((".gz", ".bz2", ".xz", ".zip", ".lha", ".Z", ".set", ".nt", ".as", ".NT", ".AS")))
@@ -156,11 +156,14 @@ def main():
         if tier == "thorough":
             configs += [(rng.randrange(4000, 49171), rng.randrange(0, 8), rng.randrange(0, 3), rng.randrange(0, 4), rng.randrange(-100, 101), rng.randrange(0, 201)) for _ in range(8)]
         nmods = 0
-        for m in mods:
+        # every module at its own tempo factor; the first few also with xmp_set_tempo_factor(5.0), which makes
+        # ticks long enough for the frame-size cap to apply at the higher rates (the timeline must not notice)
+        runs = [(m, None) for m in mods] + [(m, "3.0") for m in mods[:4]]
+        for m, tfac in runs:
             path = os.path.join(data, m)
             ref = None
             for cfg in configs:
-                r = V.run([drv, "timeline", path, str(nframes)] + [str(x) for x in cfg] + ["T"], env=env, timeout=300)
+                r = V.run([drv, "timeline", path, str(nframes)] + [str(x) for x in cfg] + ["T"] + ([tfac] if tfac else []), env=env, timeout=300)
                 if r.returncode == 3:
                     break
                 if r.returncode != 0:
@@ -168,6 +171,12 @@ def main():
                                  key="timeline-crash:" + m)
                     break
                 lines = r.stdout.strip().split("\n")
+                if lines and lines[0] == "TEMPO-FACTOR-REFUSED":
+                    # xmp_set_tempo_factor refuses factors whose tick would exceed the frame cap at the *current* rate (control.c):
+                    # the control call itself failed, so this configuration is not a run of the same call sequence
+                    refused = ck.cov["engines"].setdefault("timeline", {}).setdefault("tempo_factor_refused", 0)
+                    ck.cov["engines"]["timeline"]["tempo_factor_refused"] = refused + 1
+                    continue
                 tl = []
                 for ln in lines:
                     w = ln.split()
@@ -195,17 +204,17 @@ def main():
                 if ref is None:
                     ref = tl
                     nmods += 1
-                    ck.nontrivial(("TL", m))
+                    ck.nontrivial(("TL", m, tfac))
                 elif tl != ref:
                     k = next((i for i in range(min(len(tl), len(ref))) if tl[i] != ref[i]), min(len(tl), len(ref)))
                     ck.violation({"engine": "timeline", "module": m, "config_a": list(base), "config_b": list(cfg), "first_differing_frame": k,
-                                  "a": ref[k] if k < len(ref) else None, "b": tl[k] if k < len(tl) else None,
+                                  "a": ref[k] if k < len(ref) else None, "b": tl[k] if k < len(tl) else None, "tempo_factor": tfac,
                                   "fields": "pos pattern row num_rows frame speed bpm time loop_count total_time sequence",
                                   "broken": "monitor: timeline differs between output configurations"},
                                  key="timeline:%s" % m)
                     break
             # PCM encoding relations on the real render: same rate/mono-ness/interp/amp/mix/vol, vary 8-bit and unsigned flags
-            for monoflag in (0, 4):
+            for monoflag in ((0, 4) if tfac is None else ()):
                 outs = {}
                 for fmt in (0, 1, 2, 3):
                     r = V.run([drv, "timeline", path, str(min(nframes, 120)), "22050", str(fmt | monoflag), "1", "1", "60", "100", "P"], env=env, timeout=300)
